@@ -171,7 +171,9 @@ def run_instance(spec):
             res["exhaustive"] = False
         elif status in ("unsupported", "exception"):
             # a path that dies: candidate violation, decided by concrete replay
-            r, s = core.check(ctx.all())
+            # generic (pseudo-random dyadic) input values are tried first: a dying path is judged by the
+            # concrete replay, and special values (0, integers) hide defects such as a lossy integer buffer
+            r, s = core.seeded_check(ctx, ctx.all(), attempts=4)
             entry = {"name": "no_exception", "prefix": _pfx(ctx), "kind": status, "detail": err}
             if status == "exception":
                 entry["traceback"] = tb
